@@ -120,6 +120,9 @@ func genParse(r *rand.Rand, n int, emit func(string)) {
 				src = mutate(r, src)
 			}
 		}
+		if r.Intn(6) == 0 { // Windows line endings
+			src = strings.ReplaceAll(src, "\n", "\r\n")
+		}
 		emit(fmt.Sprintf("PARSE %s %s %s %s %s %s", flags, tokI, st, ex, ops, hexOf(src)))
 	}
 }
